@@ -64,6 +64,21 @@ EvWin == /\ Ev("win")
                (* iterator laws: the exact remaining length after every step, fused at the end *)
                /\ Expect(E.iter1 = [i \in 1..(Len(w1) + 1) |-> Len(w1) + 1 - i] /\ E.iter2 = [i \in 1..(Len(w2) + 1) |-> Len(w2) + 1 - i]
                          /\ E.fused = TRUE /\ E.hints = TRUE, <<l, "win-iterator-laws">>)
+               (* the other ways of consuming the same iterator: nth(n) returns window n + 1 and leaves
+                  the windows after it; skip(n), step_by(n + 1), last and count agree with the sequence *)
+               /\ Expect(\A i \in 1..Len(E.nth) :
+                            LET r == E.nth[i]
+                                From(ws, k) == SubSeq(ws, k, Len(ws))
+                                Every(ws, st) == [j \in 1..((Len(ws) + st - 1) \div st) |-> ws[(j - 1) * st + 1]]
+                                sk == From(w2, (r.n \div 2) + 1) IN
+                            /\ Digits(r.got) = (IF r.n < Len(w1) THEN <<w1[r.n + 1]>> ELSE <<>>)
+                            /\ Digits(r.rest) = From(w1, r.n + 2) /\ His(r.got) \subseteq {0} /\ His(r.rest) \subseteq {0}
+                            /\ Digits(r.got2) = (IF r.n2 < Len(w2) THEN <<w2[r.n2 + 1]>> ELSE <<>>)
+                            /\ Digits(r.rest2) = From(w2, r.n2 + 2) /\ His(r.got2) \subseteq {A.k + 1} /\ His(r.rest2) \subseteq {A.k + 1}
+                            /\ Digits(r.skip) = From(w1, r.n + 1) /\ His(r.skip) \subseteq {A.k}
+                            /\ Digits(r.step) = Every(w1, r.n + 1)
+                            /\ Digits(r.last) = (IF Len(sk) = 0 THEN <<>> ELSE <<sk[Len(sk)]>>)
+                            /\ r.count = Len(From(w1, r.n + 1)), <<l, "win-nth-skip-step">>)
                (* candidate <=> recorded index window sets intersect, on recorded values *)
          /\ Stateless
 
